@@ -351,7 +351,12 @@ loop:
 	// All data have been sent, it's no need to monitor the writable events for LT mode,
 	// remove the writable event from poller to help the future event-loops if necessary.
 	if !isET && c.outboundBuffer.IsEmpty() {
-		return el.poller.ModRead(&c.pollAttachment, false)
+		if err = el.poller.ModRead(&c.pollAttachment, false); err != nil {
+			// The registration can't be changed: the writable event would fire forever.
+			// Treat it like the same failure in conn.write and close the connection.
+			return el.close(c, err)
+		}
+		return nil
 	}
 
 	// To prevent infinite writing in ET mode and starving other events,
